@@ -84,6 +84,8 @@ class StubClient:
     """what ModbusTransactionManager and the framers need from a client, over a scripted reply"""
     broadcast_enable = False
 
+    label = 'StubClient'
+
     def __init__(self, framer_cls, reply=b''):
         self.framer = framer_cls(ClientDecoder(), self)
         self.reply = reply
@@ -99,7 +101,7 @@ class StubClient:
         self.transaction = mgr(self, retries=3, retry_on_empty=False, retry_on_invalid=False)
 
     def __str__(self):
-        return 'StubClient'
+        return self.label
 
     def idle_time(self):
         return 0
@@ -126,8 +128,9 @@ class StubClient:
         return out
 
 
-def client_roundtrip(fname, m, resp, unit=1):
-    """returns (asked sizes, bytes consumed, frame length, result json or error)"""
+def client_roundtrip(fname, m, resp, unit=1, label=None):
+    """returns (asked sizes, bytes consumed, frame length, result json or error); `label`: what str(client) gives (a stream
+    client is a stream client whatever its host is called)"""
     fcls = FRAMERS[fname]
     req = msggen.mk_req(m)
     req.unit_id = unit
@@ -136,6 +139,8 @@ def client_roundtrip(fname, m, resp, unit=1):
     resp.transaction_id = 1           # the manager's first tid
     frame = probe.framer.buildPacket(resp)
     c = StubClient(fcls, frame)
+    if label:
+        c.label = label
     try:
         got = c.transaction.execute(req)
     except Exception as e:  # noqa
@@ -575,14 +580,19 @@ def run(ctx):
         for m in (reqs[0], reqs[4000], {'t': 'writeRegister', 'address': 1, 'value': 2}, dreqs[0]):
             exc = ExceptionResponse(msggen.mk_req(m).function_code, 2)
             check_client(rep, fname, m, exc, exception=True)
+            # a stream client whose host name happens to contain the name of another transport
+            for label in ('ModbusTlsClient(udp-bridge.plant.local:802)', 'ModbusTcpClient(serial-udp-gw:502)'):
+                check_client(rep, fname, m, ExceptionResponse(msggen.mk_req(m).function_code, 2), exception=True, label=label)
     return rep
 
 
-def check_client(rep, fname, m, resp, exception=False):
+def check_client(rep, fname, m, resp, exception=False, label=None):
     case = {'kind': 'client-read', 'framer': fname, 'req': {kk: (v if not isinstance(v, list) else len(v)) for kk, v in m.items()},
             'exception': exception}
+    if label:
+        case['client_str'] = label
     expect = pdus.resp_to_json(ClientDecoder().decode(bytes([resp.function_code]) + resp.encode()))
-    asked, pos, frame, got = client_roundtrip(fname, m, resp)
+    asked, pos, frame, got = client_roundtrip(fname, m, resp, label=label)
     flen = len(frame)
     rep.case((fname, m['t'], m.get('count', m.get('read_count', 0)), exception), nontrivial=True, tag='client:' + fname)
     over = bool(asked) and all(a is not None for a in asked) and sum(asked) != flen     # asked the port for more (or fewer) bytes than the reply has
